@@ -147,12 +147,30 @@ def _build_condition(
             values = values + [0.0, -0.0]
         return values
 
+    def _membership(values: List[Any]) -> pc.Expression:
+        # is_in casts the value set to the COLUMN's type: on a 32-bit float
+        # column the literal 0.1 becomes float32(0.1) and matches rows that
+        # `== 0.1` does not match (and that file pruning, which compares the
+        # stored bounds as doubles, has already ruled out). Float literals are
+        # therefore compared exactly like == compares them.
+        floats = [v for v in values if isinstance(v, float) and v == v]
+        others = [v for v in values if not (isinstance(v, float) and v == v)]
+        cond: Optional[pc.Expression] = None
+        for v in floats:
+            term = field == v
+            cond = term if cond is None else (cond | term)
+        if others:
+            term = pc.is_in(field, value_set=pa.array(others))
+            cond = term if cond is None else (cond | term)
+        assert cond is not None
+        return cond
+
     def _in_condition() -> pc.Expression:
         values = _value_set()
         if not values:
             # IN () matches nothing (SQL semantics)
             return pc.scalar(False)
-        return pc.is_in(field, value_set=pa.array(values)) & field.is_valid()
+        return _membership(values) & field.is_valid()
 
     def _not_in_condition() -> pc.Expression:
         values = _value_set()
@@ -161,7 +179,7 @@ def _build_condition(
             return field.is_valid()
         # `~pc.is_in(...)` alone KEEPS null rows (is_in returns false for them),
         # which contradicts the documented contract - hence the is_valid() guard.
-        return (~pc.is_in(field, value_set=pa.array(values))) & field.is_valid()
+        return (~_membership(values)) & field.is_valid()
 
     op_handlers: Dict[FilterOp, Any] = {
         FilterOp.EQ: lambda: field == expr.value,
